@@ -1,4 +1,5 @@
 import Driver.Codec
+import MW.Proto.Codec
 /-!
 # Model driver: one JSON request per line on stdin, one JSON reply per line on stdout.
 
@@ -161,6 +162,16 @@ def handlePure (req : Json) : Json :=
 def handle (st : DState) (req : Json) : DState × Json :=
   match getStr req "op" with
   | "pure" => (st, handlePure req)
+  | "wire_roundtrip" =>
+    -- the Lean wire codec on bytes produced for / by prost: decode then re-encode
+    let hex := getStr req "hex"
+    let nib (c : Char) : Nat := if c.isDigit then c.toNat - 48 else if c.toNat ≥ 97 then c.toNat - 87 else c.toNat - 55
+    let rec bytesOf : List Char → List UInt8
+      | a :: b :: rest => UInt8.ofNat (nib a * 16 + nib b) :: bytesOf rest
+      | _ => []
+    match MW.Proto.decodeFields (bytesOf hex.toList) with
+    | some fs => (st, Json.mkObj [("ok", .str (MW.Proto.toHex (MW.Proto.encodeFields fs))), ("fields", jNat fs.length)])
+    | none => (st, Json.mkObj [("err", Json.mkObj [("kind", "Decode")])])
   | "tboot" =>
     let self := getStr req "self"
     let chainPrefix := getStr req "chain_prefix"
